@@ -75,9 +75,10 @@ theorem saneG_of_sane {g : Game} (hw : g.WF) (h : Spec.sane g.abs = true) : Sane
 
 /-! ### a sane imported position is well formed
 
-The FEN reader does not check that castling rights and the en-passant file are backed by the board
-(`ofFen_rights_not_checked`), which is why `Reach.imported` asks for `RightsInv` and `EpInv`. The
-rules' `Spec.sane` contains both, so for a sane position they need not be assumed. -/
+The FEN reader checks that castling rights and the en-passant file are backed by the board
+(`ofFen_rightsInv`, `ofFen_epInv`), so every imported game is well formed (`ofFen_wf`). The rules'
+`Spec.sane` contains both conditions too: the two lemmas below extract them for any game with
+`KingInv`, imported or not. -/
 
 theorem right_aux {g : Game} (hk : g.KingInv) (pl : Player) (r c : Int) (hr : 0 ≤ r ∧ r < 8)
     (hc : 0 ≤ c ∧ c < 8) (h1 : g.abs.at (r, 4) = some ⟨.king, pl⟩)
@@ -136,8 +137,7 @@ theorem epInv_of_sane {g : Game} (h : Spec.sane g.abs = true) : g.EpInv := by
 /-- **a position the reader accepts and the rules call sane is well formed and `SaneG`** -/
 theorem saneG_of_fen {s : List Char} {g : Game} (hok : Game.ofFen s = .ok g)
     (h : Spec.sane g.abs = true) : SaneG g :=
-  saneG_of_sane
-    (reach_wf (.imported s g hok (rightsInv_of_sane (ofFen_wf_rest hok).1 h) (epInv_of_sane h))) h
+  saneG_of_sane (ofFen_wf hok) h
 
 /-! ## 2. The king after the move; the filter's test in the rules' words -/
 
@@ -530,7 +530,7 @@ theorem startPos_material : MaterialOKBoard startPos.board := by
 /-- the reader accepts the standard start text, and the game it builds is `SaneG`: C01 holds for
 every game reachable from it by legal play -/
 theorem start_saneG : ∃ g, Game.ofFen startFen = .ok g ∧ g.abs = startPos ∧ SaneG g := by
-  obtain ⟨g, hok, habs⟩ := ofFen_complete startPos_eq_fen startPos_material
+  obtain ⟨g, hok, habs⟩ := ofFen_complete_of_sane startPos_eq_fen startPos_sane
   exact ⟨g, hok, habs, saneG_of_fen hok (by rw [habs]; exact startPos_sane)⟩
 
 end Chess.Legal
